@@ -102,7 +102,7 @@ def convertClass : PyKind → LitClass
   | .bool => .boolean
   | .int => .number
   | .floatFinite => .number
-  | .floatNan => .number
+  | .floatNan => .null          -- sqlglot's `convert` turns a NaN into NULL
   | .floatInf => .number        -- the bare word `inf`: not a number for the engine
   | .str => .string
   | .bytes => .binary
@@ -135,6 +135,7 @@ def columnLit (k : PyKind) : LitClass :=
 def litOf (k : PyKind) : LitClass :=
   if k = .str && litStrIsStringLiteral then .string
   else if k = .floatInf && litInfIsString then .string
+  else if k = .floatNan && litNanCast.isSome then .castStr (litNanCast.getD "")
   else columnLit k
 
 /-- implicit conversion of a Python operand (`col('f') < x`): `Column(x)` = `_lit` without `lit`'s own cases -/
